@@ -17,7 +17,7 @@ from ..common import Result, sut, digest
 from ..exactpoly import percolation_counts, percolation_value
 
 ID = "C17"
-RULE = ("harness-built cover-labelled networks: N 8..16 vertices, 5..12 motifs from {edge, triangle, 4-cycle, chorded 4-cycle, K4, 5-cycle}, "
+RULE = ("harness-built cover-labelled networks: N 8..16 vertices, 5..12 motifs from {edge, triangle, 4-cycle, chorded 4-cycle, K4, 5-cycle, house, chorded 6-cycle, bow-tie, tadpole, 6-cycle, chorded 4-cycle with a tail, 3-star}, "
         "motifs pairwise sharing <= 1 vertex, with cycles in the motif hypergraph (10% tree-like controls); phi grid of 11 (quick) / 21 (thorough) "
         "points + random; iterations in {1,2,3,5,25,60}; histories of 10..40 queries per object in random, ascending and descending phi order with "
         "repeats; non-trivial = giant-component fraction > 1e-3 at some fast-convergence phi; distinct = SHA-1 of the labelled network")
@@ -30,7 +30,11 @@ REQUIRED = {"quick": {"fixed_point_equalities": 20, "nontrivial_equalities": 5, 
             "thorough": {"fixed_point_equalities": 500, "nontrivial_equalities": 100, "monotonicity_pairs": 3000, "reuse_vs_fresh_checks": 800, "loopy_networks": 100}}
 SHARD_TIMEOUT = {"quick": 900, "thorough": 10800}
 SHAPES = [[(0, 1)], [(0, 1), (1, 2), (0, 2)], [(0, 1), (1, 2), (2, 3), (3, 0)], [(0, 1), (1, 2), (2, 3), (3, 0), (0, 2)],
-          list(itertools.combinations(range(4), 2)), [(0, 1), (1, 2), (2, 3), (3, 4), (4, 0)]]
+          list(itertools.combinations(range(4), 2)), [(0, 1), (1, 2), (2, 3), (3, 4), (4, 0)],
+          # chorded and composite motifs: chorded 5-cycle (house), chorded 6-cycle, bow-tie, tadpole, 6-cycle, K4 minus an edge with a tail
+          [(0, 1), (1, 2), (2, 3), (3, 4), (4, 0), (0, 2)], [(0, 1), (1, 2), (2, 3), (3, 4), (4, 5), (5, 0), (0, 3)],
+          [(0, 1), (1, 2), (0, 2), (0, 3), (3, 4), (0, 4)], [(0, 1), (1, 2), (0, 2), (2, 3)], [(0, 1), (1, 2), (2, 3), (3, 4), (4, 5), (5, 0)],
+          [(0, 1), (1, 2), (2, 3), (3, 0), (0, 2), (3, 4)], [(0, 1), (1, 2), (1, 3)]]
 
 
 def gen_cases(tier, seed):
